@@ -288,6 +288,8 @@ impl IceTransportRunner {
                         IceSocketWrapper::Turn(c, addr) => {
                             read_futures.push(Box::pin(Self::run_turn_read_loop(c, addr, self.inner.clone())));
                         }
+                        #[cfg(rustrtc_verif)]
+                        IceSocketWrapper::Verif(_) => {}
                     }
                 }
                 res = self.candidate_rx.recv() => {
@@ -2429,6 +2431,8 @@ async fn handle_stun_request(
             IceSocketWrapper::Udp(_) | IceSocketWrapper::SharedUdp(_) => "udp",
             IceSocketWrapper::TcpListener(_) | IceSocketWrapper::TcpStream(_, _, _) => "tcp",
             IceSocketWrapper::Turn(_, _) => "udp",
+            #[cfg(rustrtc_verif)]
+            IceSocketWrapper::Verif(_) => "udp",
         };
         let mut candidate = IceCandidate::host(addr, 1); // Use host for now, or prflx
         candidate.typ = IceCandidateType::PeerReflexive;
@@ -2512,6 +2516,8 @@ async fn handle_stun_request(
                         .unwrap_or_else(|_| "0.0.0.0:0".parse().unwrap())
                 }
                 IceSocketWrapper::Turn(_, addr) => *addr,
+                #[cfg(rustrtc_verif)]
+                IceSocketWrapper::Verif(v) => v.local,
             };
 
             let locals = inner.gatherer.local_candidates();
@@ -4489,6 +4495,8 @@ pub enum IceSocketWrapper {
         SocketAddr,
     ),
     Turn(Arc<TurnClient>, SocketAddr),
+    #[cfg(rustrtc_verif)]
+    Verif(Arc<crate::verif::VerifSocket>),
 }
 
 impl IceSocketWrapper {
@@ -4515,6 +4523,8 @@ impl IceSocketWrapper {
             ),
             IceSocketWrapper::TcpStream(_, _, peer) => format!("tcp-stream:peer={peer}"),
             IceSocketWrapper::Turn(_, addr) => format!("turn:{addr}"),
+            #[cfg(rustrtc_verif)]
+            IceSocketWrapper::Verif(v) => format!("verif:{}", v.local),
         }
     }
 
@@ -4533,6 +4543,8 @@ impl IceSocketWrapper {
                     Err(anyhow!(reason))
                 }
             },
+            #[cfg(rustrtc_verif)]
+            IceSocketWrapper::Verif(v) => v.send(data, addr),
             // Non-UDP transports (TCP/TLS/TURN) are not used by the bridge
             // fast-path; fall back to the async variant.
             _ => Err(anyhow::anyhow!(
@@ -4589,6 +4601,8 @@ impl IceSocketWrapper {
                 }
                 Ok(data.len())
             }
+            #[cfg(rustrtc_verif)]
+            IceSocketWrapper::Verif(v) => v.send(data, addr),
         }
     }
 
@@ -4631,6 +4645,10 @@ impl IceSocketWrapper {
             )),
             IceSocketWrapper::Turn(_, _) => Err(anyhow::anyhow!(
                 "recv_from not supported on TURN wrapper directly"
+            )),
+            #[cfg(rustrtc_verif)]
+            IceSocketWrapper::Verif(_) => Err(anyhow::anyhow!(
+                "recv_from not supported on verif wrapper"
             )),
         }
     }
